@@ -176,6 +176,13 @@ let handle_ry = function
       Printf.sprintf "%s %s %s" id (if fin then (if ryu_ok bits then "ok" else "notfound") else "nonfinite") (hex_of_bytes (json_f64 bits))
   | _ -> failwith "bad RY line"
 
+(* JI <id> <hex>: xt's JSON detection trial (serde_json's ignore_value) on a slice and on a reader *)
+let handle_ji = function
+  | [ id; data ] ->
+      let inp = bytes_of_hex data in
+      Printf.sprintf "%s %d %d" id (if json_trial_slice inp then 1 else 0) (if json_trial_reader inp then 1 else 0)
+  | _ -> failwith "bad JI line"
+
 (* TV <id> <hex>: the verdict of a TOML output on one MessagePack document *)
 let handle_tv = function
   | [ id; data ] ->
@@ -525,15 +532,16 @@ let handle_mp = function
       id ^ " " ^ verdict
   | _ -> failwith "bad MP line"
 
-(* DT <id> <hex> <json 0|1> <yaml 0|1> <toml 0|1>: detect.rs over a slice, the MessagePack trial from the model,
-   the other three trials answering as given *)
+(* DT <id> <hex> <json 0|1|s|r> <yaml 0|1> <toml 0|1>: detect.rs over a slice, the MessagePack trial from the model,
+   the other three trials answering as given; json = s / r: the JSON trial from the model too (slice / reader form) *)
 let handle_dt = function
   | [ id; data; j; y; t ] ->
       let inp = bytes_of_hex data in
       let mk b = { t_ops = []; t_verdict = (fun _ -> Ok b) } in
       let tm = mk (msgpack_matches utf8_valid inp) in
       let st = start (HSlice inp) in
-      let _, r = detect_format (fun _ -> O) (nat_of_int 2097152) (fun _ -> t = "1") tm (mk (j = "1")) (mk (y = "1")) st in
+      let jv = match j with "s" -> json_trial_slice inp | "r" -> json_trial_reader inp | _ -> j = "1" in
+      let _, r = detect_format (fun _ -> O) (nat_of_int 2097152) (fun _ -> t = "1") tm (mk jv) (mk (y = "1")) st in
       (match r with
       | Ok None -> id ^ " none"
       | Ok (Some f) -> id ^ " " ^ fmt_name f
@@ -569,6 +577,7 @@ let () =
           | "MJ" :: rest -> handle_mj rest
           | "TV" :: rest -> handle_tv rest
           | "RY" :: rest -> handle_ry rest
+          | "JI" :: rest -> handle_ji rest
           | k :: _ -> failwith ("unknown case kind " ^ k)
           | [] -> ""
         in
